@@ -179,6 +179,26 @@ def nesting_shapes(rng, maxpairs=4):
     return shapes
 
 
+def hostile_lengths(rng, n):
+    out = []
+    fixed = [bytes.fromhex(x) for x in ('05ff80000000', '05ff7fffffff', '05ffffffffff', '05ff00000000', '05ff00000001aa',
+                                         '0dff80000001', 'fdc8ff8000000000', '05fe8000', '05feffff', '05fe0001aa', '05fe0002aa',
+                                         '15ff80000000', '6dff00000002abcd', '6dff00000003abcd')]
+    out += fixed
+    for _ in range(n):
+        first = rng.choice([0x05, 0x0D, 0x15, 0x25, 0x65, 0xF5, 0xFD])
+        hdr = bytes([first]) + (bytes([rng.randrange(256)]) if first >> 4 == 15 else b'')
+        if rng.random() < 0.5:
+            ln = rng.choice([0, 1, 2, 253, 254, 255, 256, 0x7FFF, 0x8000, 0xFFFF])
+            body = b'\xfe' + ln.to_bytes(2, 'big')
+        else:
+            ln = rng.choice([0, 1, 2, 255, 65535, 65536, 0x7FFFFFFF, 0x80000000, 0x80000001, 0xFFFFFFFF, rng.randrange(2 ** 32)])
+            body = b'\xff' + ln.to_bytes(4, 'big')
+        data = bytes(rng.randrange(256) for _ in range(rng.choice([0, 1, 2, 3, 5])))
+        out.append(hdr + body + data)
+    return out
+
+
 def cases(rng, tier):
     out = []
     # exhaustive small octet strings
@@ -227,6 +247,10 @@ def cases(rng, tier):
                 else:
                     m.insert(k, rng.randrange(256))
                 out.append(case_dec(bytes(m), 'dec-mutated'))
+    # hostile extended lengths: every class/number shape x {FE hi lo, FF b3 b2 b1 b0} with boundary and random
+    # length fields (top bit set, 0, 1, exact, one more than available) x short data
+    for hb in hostile_lengths(rng, 60 if not big else 400):
+        out.append(case_dec(hb, 'dec-hostile-length'))
     # malformed tag objects through the encoder (refusals)
     for t in [(0, 256, 0, b''), (1, 300, 2, b'ab'), (0, 2, 3, b'a'), (2, 3, 2, b''), (3, 15, 0, b''), (5, 2, 1, b'x'), (1, 15, 5, b'abcde')]:
         out.append(case_enc([t], 'enc-malformed'))
@@ -339,6 +363,9 @@ def direct(rng, tier, focus=()):
             if f: failures.append(f)
     for _ in range(200000 if tier == 'thorough' else 20000):
         f = arbitrary(bytes(rng.randrange(256) for _ in range(rng.choice([3, 3, 3, 4, 5, 8]))))
+        if f: failures.append(f)
+    for hb in hostile_lengths(rng, 2000 if tier == 'thorough' else 300):
+        f = arbitrary(hb)
         if f: failures.append(f)
     for d in focus:
         if isinstance(d, dict) and d.get('op') == 'decode':
